@@ -51,6 +51,8 @@ PARTIAL = [
     "convex hull: PROVED for every finite point list (duplicates and collinear points included): hull vertices are input points, pairwise distinct, every input point is left-of-or-on every edge of the closed hull polygon, and with >= 3 vertices all cyclically consecutive triples turn strictly left (convexHull_correct; Andrew's invariant of one scan: halfHull_invariant / ScanInv.step); not stated separately: minimality as 'no proper sub-polygon contains the points' (it follows from subset + strict convexity + distinctness)",
     "wn_poly: PROVED: counter >= 1 for a point strictly left of every edge of any closed polygon (wnNum_inside_ge_one), counter = 0 when a line separates the point from all vertices (wnNum_separated_zero), hence for a strictly convex ccw polygon and a point off the boundary wn_poly is True iff the point is strictly left of every edge (wnPoly_convex), also on the output of convex_hull (wnPoly_convexHull). the counter is exactly 1 / 0 there (wnNum_convex_value, wnNum_convexHull_interior). NOT proved: 'wn_poly = inside' for arbitrary simple (non-convex) polygons; it is checked against an independent crossing-number test by the oracle",
     "find_ctrlpts: PROVED exact (findCtrlpts_exact / _surface_exact, list forms _exact_list): for a parameter of [U_p, U_n) strictly inside its span (e.g. not a knot) the returned control points are exactly those whose Cox-de Boor function is non-zero (strict positivity of A2.2: basisFuns_positive_inside); on a knot the exact zero pattern is proved (basisFuns_zero_pattern, findCtrlpts_active_at_any_parameter: the returned set is then a superset, the last m returned points of a knot of multiplicity m <= p have a vanishing function); closed right end u = U_n: last p+1 indices, left-limit functions characterised, end-clamped vector: only the last is non-zero, = 1 (findCtrlpts_right_end_*; needs the last span [U_{n-1}, U_n] non-empty). Not covered: volumes (find_ctrlpts has no volume branch), the object layer (which knot vector / ctrlpts2d the routine reads) is tied by correspondence only",
+    "find_ctrlpts on RATIONAL shapes, observation (audit 4, H6; a library inconsistency, not a violation of a property): find_ctrlpts(NURBS.Curve, u) reads curve.ctrlpts = the CARTESIAN control points, find_ctrlpts(NURBS.Surface, u, v) reads surf.ctrlpts2d = the WEIGHTED control points (x*w, y*w, z*w, w); the correspondence covers both with the view the real routine indexes (op fcpc gets the Cartesian points of a rational curve, op fcps the weighted net of a rational surface; 30 % resp. the surf_data share of the cases are rational), the oracle compares with the matching view; the hull theorems for these outputs are C18 rational_curve_in_hull_of_find_ctrlpts (Cartesian entries) and rational_surface_in_hull_of_find_ctrlpts (returned entries projected); findCtrlpts_exact* speak about indices / Cox-de Boor functions and hold for either view",
+    "find_ctrlpts has NO domain check: outside [U_p, U_n] the span search returns the first / last span and the control points of that span are returned; the driver ops fcpc / fcps do the same (driver = code, diagnostic streams fcpc-out / fcps-out: correspondence only, no property applies there; findCtrlpts_curve_indices needs no domain hypothesis); the ops answer ERR only where the repaired span search steps back from an empty last span (F-01b: outside the model, all theorems assume KnotsOk)",
     "ray: the status / coincidence theorems assume the exact square root (m*m = |d1 x d2|^2) and compare squared distances; the effect of the rounded sqrt (points differ by rounding, hence the tolerance) is only observed by the correspondence / oracle",
     "voxelize: the model takes the bounding box and the evaluated points of the object as inputs (surface evaluation is C01, bounding box C18); termination of frange is proved under an explicit bound N with stop - start <= N*step + step/2 (and for Archimedean fields); the exact value list of frange for an arbitrary stop value is frange_values",
     "F-20a: generate_voxel_grid(use_cubes=True) on a flat bounding box does not terminate (voxelGrid_cubes_flat_refutes_termination); coverage theorems therefore assume the grid was returned",
@@ -556,6 +558,38 @@ def gen(rng, tier):
             net = [[d['P'][i * sv + j] for j in range(sv)] for i in range(su)]
         out.append(Case('fcps', "fcps %d %d %s %s %d %d %s %s %s" % (d['pu'], d['pv'], show_list(d['ku']), show_list(d['kv']), su, sv,
                                                                    show_pts2(net), fr(d['u']), fr(d['v'])), d))
+    # ---- find_ctrlpts OUTSIDE the domain (diagnostic correspondence, audit 4 H6 note): operations.find_ctrlpts has no
+    # domain check - the span search returns the first / last span and the control points of that span are returned;
+    # the driver ops fcpc / fcps do the same (driver = code); the hull / activity statements do not apply there
+    for k in range(16 if quick else 200):
+        p = rng.randint(1, 4)
+        kv, n = G.knots(rng, p, allow_range=False, clamped=(rng.random() < .6))
+        a, b = kv[0], kv[-1]
+        kv = [(x - a) / (b - a) for x in kv]
+        lo, hi = kv[p], kv[n]
+        u = rng.choice([lo - F(rng.randint(1, 7), 5), hi + F(rng.randint(1, 7), 5), F(-3), F(5),
+                        (kv[0] + lo) / 2 if kv[0] < lo else lo - F(1, 9), (kv[-1] + hi) / 2 if kv[-1] > hi else hi + F(1, 9)])
+        d = dict(p=p, kv=kv, n=n, u=u, P=distinct_points(rng, n, rng.choice([2, 3])))
+        if rng.random() < .3:
+            d['w'] = G.weights(rng, n)
+        cnt('fcp_outside', 'curve-' + ('below' if u < lo else 'above'))
+        out.append(Case('fcpc-out', "fcpc %d %s %s %s" % (p, show_list(d['kv']), show_pts(d['P']), fr(u)), d, tags=('diagnostic',)))
+    for k in range(10 if quick else 120):
+        d = surf_data(rng, maxp=3)
+        su, sv = d['su'], d['sv']
+        d['u'] = G.param(rng, d['ku'], d['pu'], su); d['v'] = G.param(rng, d['kv'], d['pv'], sv)
+        which = rng.choice(['u', 'v', 'uv'])
+        if 'u' in which:
+            d['u'] = rng.choice([d['ku'][d['pu']] - F(rng.randint(1, 7), 5), d['ku'][su] + F(rng.randint(1, 7), 5)])
+        if 'v' in which:
+            d['v'] = rng.choice([d['kv'][d['pv']] - F(rng.randint(1, 7), 5), d['kv'][sv] + F(rng.randint(1, 7), 5)])
+        if d.get('w'):
+            net = [[[c * d['w'][i * sv + j] for c in d['P'][i * sv + j]] + [d['w'][i * sv + j]] for j in range(sv)] for i in range(su)]
+        else:
+            net = [[d['P'][i * sv + j] for j in range(sv)] for i in range(su)]
+        cnt('fcp_outside', 'surface-' + which)
+        out.append(Case('fcps-out', "fcps %d %d %s %s %d %d %s %s %s" % (d['pu'], d['pv'], show_list(d['ku']), show_list(d['kv']), su, sv,
+                                                                       show_pts2(net), fr(d['u']), fr(d['v'])), d, tags=('diagnostic',)))
     return out
 
 
@@ -652,9 +686,9 @@ def impl(c):
             _HUNG.add(c.line)
             return "HANG"
         return ",".join(str(x) for x in filled) + " " + show_pts2(grid)
-    if k == 'fcpc':
+    if k in ('fcpc', 'fcpc-out'):
         return show_pts(operations.find_ctrlpts(build_curve(d), q(d['u'])))
-    if k == 'fcps':
+    if k in ('fcps', 'fcps-out'):
         return show_pts2(operations.find_ctrlpts(build_surface(d), q(d['u']), q(d['v'])))
     raise ValueError(k)
 
